@@ -249,7 +249,18 @@ def r2(F, R):
     R.check(has_all and has_values and is_empty, "finished-needs-all-queues-empty", fin,
             "IS_FINISHED = … all(values, is_empty)", "IS_FINISHED does not test that *all* queues are empty (values().all(is_empty))")
     R.check(loads, "finished-needs-flag", fin, "IS_FINISHED reads the finished flag", "IS_FINISHED does not read the finished flag")
-    R.floor(8)
+    # path table: the result can be true only on paths where the flag was loaded as true
+    paths = A.enumerate_paths(fin)
+    bad = []
+    for p in paths:
+        flag = [o for a, o in p.decisions if re.search(r"Atomic\w*::load\(", a)]
+        if p.ret is False:
+            continue
+        if flag != ["true"]:
+            bad.append([(a[:40], o) for a, o in p.decisions])
+    R.check(bool(paths) and not bad, "finished-only-after-parser-finished", fin, "IS_FINISHED = finished && (…): true only when the finished flag is set",
+            f"IS_FINISHED can return true although the parser has not finished (path {bad[:1]}): the run ends and later features never run")
+    R.floor(9)
 
 
 def _fn_values(b):
